@@ -35,6 +35,9 @@ type bmFile struct {
 	mu   sync.Mutex
 	name string
 	data []byte
+	// a store that breaks off: reads reaching failAt deliver what lies before it (possibly nothing) and failErr
+	failAt  int64
+	failErr error
 }
 
 const bmMaxFile = 1 << 26
@@ -47,6 +50,13 @@ func (f *bmFile) ReadAt(b []byte, off int64) (int, error) {
 	}
 	if off >= int64(len(f.data)) {
 		return 0, io.EOF
+	}
+	if f.failErr != nil && off+int64(len(b)) > f.failAt {
+		n := 0
+		if off < f.failAt {
+			n = copy(b, f.data[off:f.failAt])
+		}
+		return n, f.failErr
 	}
 	n := copy(b, f.data[off:])
 	if n < len(b) {
@@ -1049,7 +1059,7 @@ var c01Prop = &reg.Property{
 				{Part: "C01/product", Build: "plain", Args: map[string]string{"set": "huge"}, Shards: 4, BudgetS: 80, Procs: 1, Label: "product huge P=200000 K=2 maxtx=1<<20 (boundary subset)"},
 			}
 		}
-		jobs = append(jobs, reg.Job{Part: "C01/special", Build: "plain", Shards: 4, BudgetS: 60, Procs: 1, Label: "served files whose stat size is 0 although they have content (procfs), every read path"})
+		jobs = append(jobs, reg.Job{Part: "C01/special", Build: "plain", Shards: 4, BudgetS: 60, Procs: 1, Label: "served files whose stat size is 0 although they have content (procfs); stores that break off in mid-file; every read path"})
 		if c01ExtraJobs != nil {
 			jobs = append(jobs, c01ExtraJobs(tier)...)
 		}
